@@ -301,9 +301,23 @@ func runPath(sh *Shared, pkg *ssa.Package, fn *ssa.Function, it workItem, sv *so
 			switch {
 			case p.why == "assume" || p.why == "infeasible" || p.why == "assert-false" || p.why == "deadlock":
 				res.status = "pruned"
-			default:
+			case p.why == "step budget exceeded":
+				// hang candidate: confirmed (or not) by a native run under a timeout
+				var m map[int]uint64
+				if ps.ensureModel() {
+					m = ps.model
+				}
+				ps.violate("hang@"+i.hangSite, i.hangSite, "instruction budget exhausted (possible non-termination)", m)
+				res.status = "ok"
 				res.status, res.why = "undecided", p.why
 			}
+		case stackExhaustion:
+			var m map[int]uint64
+			if ps.ensureModel() {
+				m = ps.model
+			}
+			ps.violate("stack@"+p.fn, p.fn, "call depth budget exhausted (possible unbounded recursion)", m)
+			res.status = "ok"
 		default:
 			// a panic escaping the harness: violation candidate
 			msg := panicString(r)
